@@ -178,6 +178,7 @@ void run_lifecount(const std::vector<std::string> &w, out &o)
             else if (ch == 'z') { r->resize(n); q.clear(); }
             else if (ch == 'y') { std::unique_ptr<TRng> c(new TRng(*r)); r = std::move(c); }
             else if (ch == 'm') { std::unique_ptr<TRng> c(new TRng(std::move(*r))); r = std::move(c); }
+            else if (ch == 'M') { { TRng c(std::move(*r)); } r->resize(n); q.clear(); } // moved-from ring resized
             else if (ch == 'g') { std::unique_ptr<TRng> c(new TRng(3)); *c = *r; r = std::move(c); } // copy assignment
             else { o.result = "bad-op"; return; }
             if (r->avail() != q.size()) o.fail("avail " + S(r->avail()) + " != reference " + S(q.size()));
